@@ -21,6 +21,9 @@ def cases(rng, tier, shard, nshards):
         canonical = rng.random() < 0.6
         if version == "gfa1":
             d = G.gen_gfa1(rng, canonical=canonical, with_lengths=rng.random() < 0.5, nlinks=rng.randint(1, 8))
+        elif rng.random() < 0.45:
+            d = G.gen_gfa2_semantic(rng)
+            canonical = True
         else:
             d = G.gen_gfa2(rng, canonical=canonical)
         lines = d.lines()
